@@ -54,6 +54,34 @@ CHECKS = {
              "replayed again with an identity custom coercer (whose result is type-checked, so it must equal strict mode).",
         design_ref="7 C14", technique="TLA+ coercion table in the reference semantics, TLC invariant + replay (coerce=True, custom coercer)",
         note=DESER_NOTE),
+    "C04": dict(
+        category="model_checking",
+        text="spec/Serialization.tla gives the JSON image Ser(T, v) (aliases, collections as lists, enums by value, serialized "
+             "methods, flattened/properties fields merged, the omission rule for Undefined / None / default / "
+             "condition-matching values under exclude_* options, unions by first matching class, discriminator key). TLC "
+             "checks JsonOnly and AnyEqTyped over (type, options, typed value) cases and emits the predicted image of each; "
+             "every case is replayed through the real serialize (typed and untyped) and compared as JSON mappings.",
+        design_ref="7 C04", technique="TLA+ reference serialization semantics, TLC enumeration + spec->code replay",
+        note="Trusted: TLC, the reading of the docs encoded in spec/Serialization.tla and spec/DataModel.tla, the bridge building real classes/values. Values are typed images of the conforming data of the bounded deserialization universe." + " The 'unset' clause of the omission rule is decided with C15, key order with C16."),
+    "C05": dict(
+        category="model_checking",
+        text="TLC checks RoundTrip -- RD(T, Ser(T, v)) = v -- between the two reference semantics on the bijective fragment "
+             "(predicate Bijective: no asymmetric skip, serialized method, __post_init__, competing union alternatives) over "
+             "the universe; every emitted case is then round-tripped in the real code (directly and through json.dumps / "
+             "loads, same aliaser / additional_properties both ways) and compared with runtime classes. Standard-library "
+             "converted types are round-tripped on sample pools inside containers, Optional, unions and dataclass fields.",
+        design_ref="7 C05", technique="TLC theorem between the two TLA+ semantics + real round-trip replay",
+        note="Trusted: TLC, the reading of the docs encoded in spec/Serialization.tla and spec/DataModel.tla, the bridge building real classes/values. Values are typed images of the conforming data of the bounded deserialization universe."),
+    "C08": dict(
+        category="model_checking",
+        text="The specification has no notion of no_copy, override_dataclass_constructors, precomputed methods, check_type "
+             "or pass-through: its predicted outcome is what every option vector must produce. Every case TLC enumerates "
+             "for the deserialization and serialization models is replayed under each option vector (no_copy x "
+             "override_dataclass_constructors x function/precomputed method x deserialization pass_through; check_type, "
+             "no_copy, serialization_method, PassThroughOptions flag vectors completed by serialization_default) and "
+             "compared with the prediction; container identity is observed for the copy rules and inputs are fingerprinted.",
+        design_ref="7 C08", technique="TLA+ models of C01/C04 as option-independent oracle, replay under every option vector",
+        note="Trusted: TLC, the reading of the docs encoded in spec/Serialization.tla and spec/DataModel.tla, the bridge building real classes/values. Values are typed images of the conforming data of the bounded deserialization universe." + " Identity observed on mutable containers only; Any positions are exempt from the no-sharing rule."),
     "C09": dict(
         category="model_checking",
         text="spec/Cache.tla: configuration knobs (every settings attribute, every registry of the sensitive classes) with "
